@@ -266,7 +266,7 @@ func (ex *Exec) call(fn *ssa.Function, args []Value, env []Value, g *T, caller *
 			depth++
 		}
 	}
-	if depth > ex.depthMax || ex.stackDepth > 400 {
+	if depth > ex.depthMax || ex.stackDepth > 6000 {
 		ex.queries = append(ex.queries, Query{"unwind", "recursion " + fn.Name(), g})
 		return zeroRes(fn), g // treat as diverging: nothing continues under g
 	}
